@@ -194,3 +194,4 @@ Fixpoint replies_diff (a b : list reply) (i : N) : option N :=
   | x :: a', y :: b' => if reply_eqb x y then replies_diff a' b' (i + 1) else Some i
   | _, _ => Some i
   end.
+Definition fail_at (k : N) (kind : errkind) : list fault := repeat NoFault (N.to_nat k) ++ [Fail kind].
